@@ -56,9 +56,27 @@ def _in_memory_digests(gw, names) -> dict:
     return {n: digest_any(get[n]()) for n in names}
 
 
-def stage_W(d: str, spec: dict, order: list, crash_after=None, disk_fault=None, want_digests: bool = False) -> dict:
-    """rule run_grid: build the grid and save the files, one step per save."""
+LOOKS = {"adj_pos": lambda fg: fg.get_full_adjacency(only_position=True),
+         "adj_ori": lambda fg: fg.get_full_adjacency(only_orientation=True),
+         "dist_pos": lambda fg: fg.get_full_distances(only_position=True),
+         "dist_ori": lambda fg: fg.get_full_distances(only_orientation=True),
+         "adjacency": lambda fg: fg.get_full_adjacency(), "borders": lambda fg: fg.get_full_borders(),
+         "distances": lambda fg: fg.get_full_distances(), "volumes": lambda fg: fg.get_total_volumes(),
+         "array": lambda fg: fg.get_full_grid_as_array(),
+         "pos_volumes": lambda fg: fg.get_position_grid().get_all_position_volumes(),
+         "pos_adjacency": lambda fg: fg.get_position_grid().get_adjacency_of_position_grid()}
+
+
+def stage_W(d: str, spec: dict, order: list, crash_after=None, disk_fault=None, want_digests: bool = False,
+            looks: list = None) -> dict:
+    """rule run_grid: build the grid and save the files, one step per save.  `looks`: getter calls the user of the
+    writer makes on its grid before saving (a notebook user inspecting the grid); their results are not judged."""
     gw = _writer(spec)
+    for lk in looks or []:
+        try:
+            LOOKS[lk](gw.fg)
+        except Exception:  # noqa: BLE001  (what such a call returns or raises is not C14's or C20's business)
+            pass
     for i, name in enumerate(order):
         path = os.path.join(d, GRID_FILES[name])
         if crash_after == i:
@@ -269,7 +287,14 @@ def stage_D(d: str, s: dict, crash=None) -> dict:
         if real_eigs is not None:
             tr.eigs = seeded_eigs
         try:
-            dt = tr.DecompositionTool(my_matrix)
+            # one analysis object asked several times (a notebook session), or a new one per start vector
+            if not (s.get("one_tool") and i > 0):
+                dt = tr.DecompositionTool(my_matrix)
+                if s.get("extra_call"):
+                    try:
+                        dt.get_decomposition(tol=s["tol"], maxiter=s["maxiter"], which=s["which"], sigma=sigma, k=s["k"])
+                    except Exception:  # noqa: BLE001  (not judged: the recorded call below is)
+                        pass
             try:
                 ev, evec = dt.get_decomposition(tol=s["tol"], maxiter=s["maxiter"], which=s["which"],
                                                 sigma=sigma, k=s["k"])
@@ -529,6 +554,8 @@ class PipelineCheck(Check):
         maxiter = 100000 if (tol >= 1e-8 and sel is not None and rng.random() < 0.3) else rng.choice([3000, 6000])
         solver = {"tol": tol, "maxiter": maxiter, "which": which, "sigma": sigma, "sigma_rel": sigma_rel,
                   "k": k, "seeds": [rng.randrange(2 ** 32) for _ in range(rng.choice([1, 2, 3]))]}
+        solver["one_tool"] = rng.random() < 0.4
+        solver["extra_call"] = rng.random() < 0.25
         # faults enabled for this run (swarm); ~15% fault free
         enabled = set()
         if rng.random() > 0.15:
@@ -589,6 +616,8 @@ class PipelineCheck(Check):
                 order = order_names[:]
                 rng.shuffle(order)
                 op["order"] = order
+                if rng.random() < 0.35:
+                    op["looks"] = [rng.choice(sorted(LOOKS)) for _ in range(rng.randint(1, 3))]
             ops.append(op)
             maybe_rng_fault()
         twin = None
@@ -705,7 +734,10 @@ class PipelineCheck(Check):
                     args = {"d": d}
                     if stage == "W":
                         args.update(spec=lib_spec(esc["spec"]), order=op["order"], crash_after=op.get("crash_after"),
-                                    disk_fault=op.get("disk_fault"))
+                                    disk_fault=op.get("disk_fault"), looks=op.get("looks"))
+                        if op.get("looks"):
+                            probes["writer_grid_inspected_before_save"] = \
+                                probes.get("writer_grid_inspected_before_save", 0) + 1
                         crashing = op.get("crash_after") is not None
                     elif stage == "E":
                         args.update(es=esc["energy"], crash=op.get("crash"))
@@ -719,6 +751,9 @@ class PipelineCheck(Check):
                     else:
                         args.update(s=esc["solver"], crash=op.get("crash"))
                         crashing = op.get("crash") is not None
+                        if (esc["solver"].get("one_tool") and len(esc["solver"]["seeds"]) > 1) or \
+                                esc["solver"].get("extra_call"):
+                            probes["decomposition_tool_asked_more_than_once"] = 1
                     x["executions"] += 1
                     if op.get("mode") == "cold":
                         cold_stages += 1
@@ -1118,6 +1153,8 @@ class PersistenceCheck(Check):
                 rng.shuffle(order)
             ops.append({"op": "write", "spec": sp, "order": order, "mode": self._mode(rng, tier),
                         "hashseed": rng.randint(1, 2 ** 31)})
+            if rng.random() < 0.3:
+                ops[-1]["looks"] = [rng.choice(sorted(LOOKS)) for _ in range(rng.randint(1, 3))]
             if rng.random() < 0.5 or si == len(specs) - 1:
                 ops.append({"op": "read", "mode": "cold" if rng.random() < (0.2 if tier == "quick" else 0.5) else "warm",
                             "hashseed": rng.randint(1, 2 ** 31)})
@@ -1173,7 +1210,9 @@ class PersistenceCheck(Check):
                 if op["op"] == "write":
                     sp = op["spec"]
                     args = {"d": d, "spec": lib_spec(sp), "order": op["order"], "crash_after": op.get("crash_after"),
-                            "disk_fault": op.get("disk_fault"), "want_digests": True}
+                            "disk_fault": op.get("disk_fault"), "want_digests": True, "looks": op.get("looks")}
+                    if op.get("looks"):
+                        probes["writer_grid_inspected_before_save"] = probes.get("writer_grid_inspected_before_save", 0) + 1
                     try:
                         res = run_stage("W", args, op.get("mode", "warm"), op.get("hashseed", 0))
                         if current is not None:
